@@ -81,7 +81,7 @@ T_edge_thorough == {<<t, s>> : t \in EdgeTm_thorough, s \in EdgeS_all}
 W_edge == {1, 127}
 W_edge_quick == {127}
 T_edge_w32 == {<<6962545, 31>>, <<6962545, 30>>, <<1, 31>>}
-B_edge == {-1, 0}
+B_edge == {-1}
 B_edge_thorough == {-1, 0, 200}
 EdgeX  == {0, 200}
 
@@ -275,7 +275,7 @@ EdgeSel ==
     IsEdgeSel => /\ sh \in -1..(spos - 1)
                  /\ sh # -1 => /\ BigLe(BigInt(1), ES) /\ BigLe(ES, BigPow2(sbit - 1))
                                /\ BigFitsI32(BigMul(EB, ES))
-                 /\ sh = -1 <=> \A s \in 0..(spos - 1) : OverflowBig(EdgeTmB, EdgeTes, <<EB>>, s, sbit)
+                 /\ sh = -1 => \A s \in 0..(spos - 1) : OverflowBig(EdgeTmB, EdgeTes, <<EB>>, s, sbit)
 \* the exact shift is the selected one whenever it is admissible
 EdgeEveryShift ==
     (IsEdgeSel /\ te < spos /\ BigLe(BigInt(tm[1]), BigPow2(sbit - 1)) /\ BigFitsI32(BigMul(EB, BigInt(tm[1]))))
